@@ -26,7 +26,7 @@ static z_number tz(i128 v) {
   z_number r(0);
   for (int i = 3; i >= 0; i--) r = r * base + z_number((long)(uint32_t)(m >> (32 * i)));
   return neg ? -r : r; }
-static i128 wz(const Wit &w, const std::string &p) { return (i128)(((u128)w.u(p + ".f0.a[0].f1") << 64) | (u128)w.u(p + ".f0.a[0].f0")); }
+static i128 wz(const Wit &w, const std::string &p) { return (i128)(((u128)w.u(p + ".f0.a.f1") << 64) | (u128)w.u(p + ".f0.a.f0")); }
 static i128 wide(const char *name) {                         // 128-bit decimal ghost from the command line
   std::string k = std::string(name) + "=";
   for (int i = 2; i < g_argc; i++) if (strncmp(g_argv[i], k.c_str(), k.size()) == 0) {
